@@ -37,7 +37,7 @@ var errChecks = map[string]string{
 
 // bool-returning checks: true = success
 var boolChecks = map[string]string{
-	fnTOTPValidate: "totp-code",
+	fnTOTPValidate: "totp-code", fnTOTPValidateCustom: "totp-code",
 }
 
 const maxCredDepth = 6
